@@ -90,7 +90,8 @@ def leaf_spec(kinds=None, depth=1, required=None):
     req = st.booleans() if required is None else J(required)
 
     def for_kind(kind):
-        base = {"kind": J(kind), "req": req, "validator": st.sampled_from([None, None, None, None, "v_ok", "v_not42"])}
+        vals = [None, None, None, None, "v_ok", "v_not42"] + (["v_short", "v_short"] if kind in ("list", "dict") else ["v_short"] if kind == "str" else [])
+        base = {"kind": J(kind), "req": req, "validator": st.sampled_from(vals)}
         if kind == "str":
             base["opts"] = string_opts()
         elif kind == "int":
@@ -308,6 +309,13 @@ def _string_values(opts):
         core = st.text(st.sampled_from("bcqQ" + strip + strip.swapcase()), max_size=4)
         parts.append(st.tuples(edge, core, edge).map("".join))
         parts.append(st.tuples(edge, core, edge).map("".join))
+    if opts.get("transform_case"):
+        # characters whose case change alters the length (ß -> SS, ﬁ -> FI, İ -> i + combining dot)
+        expanding = ["ß", "ﬁ", "İ", "ŉ", "ǰ", "ΐ"]
+        parts.append(st.sampled_from(expanding + ["stra" + "ß" + "e", "a" + "ß", "ﬁx", "ßß", "İİ"]))
+        if opts.get("max_len") is not None:
+            n = opts["max_len"]
+            parts.append(st.tuples(st.sampled_from(expanding), st.integers(0, 2)).map(lambda t: ("a" * max(n - 1 - t[1], 0)) + t[0]))
     if opts.get("regex"):
         parts.append(st.from_regex(opts["regex"]).filter(lambda s: len(s) < 40))
     for key in ("min_len", "max_len"):
